@@ -97,7 +97,16 @@ def bandQuery (args : List String) : String :=
                 pure (one (b.getUplinkChannel i) ++ " " ++ one (b.getDownlinkChannel i))
             | "idx" => do let f ← au 0; let d ← ai 1; pure (outStr toString (b.getUplinkChannelIndex (f % 4294967296) (d != 0)))
             | "idxdr" => do let f ← au 0; let d ← ai 1; pure (outStr toString (b.getUplinkChannelIndexForFrequencyDR (f % 4294967296) d))
-            | "cflist" => do let v ← rest[0]?; pure (fmtCFList (b.getCFList (keyIndex v)))
+            | "cflist" => do
+                let v ← rest[0]?
+                let cf := b.getCFList (keyIndex v)
+                -- the MAC-layer round trip of the model: inside a join-accept payload and back
+                let mac := match cf with
+                  | none => "-"
+                  | some l => match ({ cfList := some l } : JoinAccept).enc with
+                    | .ok bs => (match JoinAccept.dec {} bs with | .ok ja => if ja.cfList == some l then "1" else "0" | _ => "0")
+                    | _ => "0"
+                pure (fmtCFList cf ++ " mac=" ++ mac)
             | "plan" => do let dev ← (rest[0]?).bind parseIntList; pure (planList (b.plan dev))
             | "apply" => do
                 let dev ← (rest[0]?).bind parseIntList; let pls ← (rest[1]?).bind parsePlans
